@@ -585,6 +585,7 @@ func runC17(ctx *core.Ctx, idx int) *core.Result {
 	if idx%64 == 1 {
 		c17AddedImportProbe(res)
 		c17GeneratedExtentProbe(res)
+		c17BlockEndCommentProbe(res)
 	}
 	paths := [][]engineRun{applyAPI(pt, srcs)}
 	pnames := []string{"api"}
@@ -717,6 +718,43 @@ func c17GeneratedExtentProbe(res *core.Result) {
 					cls = "C17/comment-of-untouched-declaration-lost/behind-a-replaced-generated-declaration"
 				}
 				res.Violate(cls, "["+class+"] "+detail, replayFiles(pt, src, runs[0].Out))
+			}
+		}
+	}
+}
+
+// c17BlockEndCommentProbe: an untouched declaration whose block ends in a comment (go/ast files such a comment under the
+// next declaration) and that has a comment trailing it, in front of an undocumented declaration that a change replaces
+// by one of another kind. The comments of the untouched declaration stay where they are.
+func c17BlockEndCommentProbe(res *core.Result) {
+	as := []string{
+		"func Noop() {\n\t// nothing to do\n}",
+		"func Two() {\n\twork()\n\n\t// final note\n}",
+		"type S struct {\n\tA int\n\n\t// more fields later\n}",
+		"var codes = map[string]int{\n\t\"a\": 1,\n\n\t// more codes later\n}",
+		"type I interface {\n\tM()\n\n\t// more methods later\n}",
+	}
+	trails := []string{" // end of A\n\n", "\n// after A\n\n"}
+	bs := [][2]string{
+		{"const limit = 10", "@@\n@@\n-const limit = 10\n+var limit = 10\n"},
+		{"func helper() {}", "@@\n@@\n-func helper() {}\n+var helper = func() {}\n"},
+		{"var flag = true", "@@\n@@\n-var flag = true\n+const flag = true\n"},
+	}
+	for _, a := range as {
+		for _, tr := range trails {
+			for _, b := range bs {
+				src := "package a\n\n// A is not mentioned by the patch.\n" + a + tr + b[0] + "\n\n// Last is not mentioned either.\nfunc Last() {}\n"
+				runs := applyAPI(b[1], []string{src})
+				res.Evals++
+				res.Ob("block-end-comment-probes", 1)
+				if runs[0].Pan != "" || runs[0].Err != "" || runs[0].Out == src {
+					res.Violate("C17/block-end-comment-probe-failed", runs[0].Pan+runs[0].Err, replayFiles(b[1], src, runs[0].Out))
+					return
+				}
+				if class, detail, _, _ := judgeComments(src, runs[0].Out); class != "" {
+					res.Violate("C17/"+class+"/in-front-of-a-replaced-declaration", detail, replayFiles(b[1], src, runs[0].Out))
+					return
+				}
 			}
 		}
 	}
